@@ -49,7 +49,16 @@ def build_tuner(kind, specs, d, cfg, script, log, overwrite=False):
             if kind_ == "dict":
                 return {"score": float(v), "other": 1.0}
             if kind_ == "list":
-                return [float(v), float(v)]
+                # one result per execution, in any of the documented forms - also mixed, and with metric sets that differ
+                # between the executions (the first one the richer): all of them are results, the trial is COMPLETED
+                form = int(v) % 4
+                if form == 0:
+                    return [float(v), float(v)]
+                if form == 1:
+                    return [{"score": float(v), "aux": 1.0}, {"score": float(v)}]
+                if form == 2:
+                    return [{"score": float(v), "aux": 1.0}, float(v), {"score": float(v), "other": 2.0}]
+                return [{"score": float(v)}, {"score": float(v), "aux": 3.0}]
             if kind_ == "nan":
                 return float("nan")
             if kind_ == "raise":
